@@ -38,6 +38,7 @@ type Env struct {
 	pkgRel string
 	qdepth int
 	cl     *Clause
+	rangeIdx *ssa.Alloc // the rangeindex cell of the loop whose invariant is being evaluated
 }
 
 type evalError struct{ msg string }
@@ -357,6 +358,11 @@ func (env *Env) ident(name string) Val {
 				}
 			}
 		}
+		if name == "rangeindex" && env.rangeIdx != nil {
+			if c := env.st.cells[env.rangeIdx]; c != nil {
+				return c.V
+			}
+		}
 		if a := env.fr.cellByName(e, name, env.pos); a != nil {
 			if c := env.st.cells[a]; c != nil {
 				return c.V
@@ -622,10 +628,37 @@ func (env *Env) callExpr(n *ast.CallExpr) Val {
 			sub.qdepth++
 			body := sub.evalBool(n.Args[3])
 			rng := And(e.ar.idxLe(lo, qv), e.ar.idxLt(qv, hi))
-			if id.Name == "forall" {
-				return Scalar{Forall([]Term{qv}, Implies(rng, body)), boolT}
+			var trig [][]Term
+			for _, t := range inferTriggers(body.S, qv.S) {
+				trig = append(trig, []Term{{S: t}})
 			}
-			return Scalar{Exists([]Term{qv}, And(rng, body)), boolT}
+			if id.Name == "forall" {
+				return Scalar{Forall([]Term{qv}, Implies(rng, body), trig...), boolT}
+			}
+			return Scalar{ExistsT([]Term{qv}, And(rng, body), trig...), boolT}
+		case "forallT":
+			// forallT(i, lo, hi, trigger, body): forall with an explicit single-term pattern
+			if len(n.Args) != 5 {
+				env.fail("forallT(i, lo, hi, trigger, body) expects 5 arguments")
+			}
+			vn, ok := n.Args[0].(*ast.Ident)
+			if !ok {
+				env.fail("quantified variable must be an identifier")
+			}
+			lo := e.toIdx(env.typed(env.eval(n.Args[1]), intT))
+			hi := e.toIdx(env.typed(env.eval(n.Args[2]), intT))
+			qcounter++
+			qv := Term{fmt.Sprintf("%s!q%d", vn.Name, qcounter), e.ar.idxSort()}
+			sub := env.with(vn.Name, Scalar{qv, intT})
+			sub.qdepth++
+			trig := sub.eval(n.Args[3])
+			body := sub.evalBool(n.Args[4])
+			rng := And(e.ar.idxLe(lo, qv), e.ar.idxLt(qv, hi))
+			return Scalar{Forall([]Term{qv}, Implies(rng, body), dynTerms(trig)), boolT}
+		case "mark":
+			// mark(x): always true; exists only to give quantifier instantiation a syntactic anchor
+			x := e.toIdx(env.typed(env.eval(n.Args[0]), intT))
+			return Scalar{app(SBool, "mark", x), boolT}
 		case "implies":
 			return Scalar{Implies(env.evalBool(n.Args[0]), env.evalBool(n.Args[1])), boolT}
 		case "iff":
@@ -1268,10 +1301,10 @@ func (e *Engine) specInstance(sp *SpecFn) *specInst {
 	e.declareFun("spec:"+id, sorts, inst.ret)
 	bodyT := Term{body, inst.ret}
 	if len(params) == 0 {
-		e.assumps = append(e.assumps, Assump{Eq(Term{inst.fname, inst.ret}, bodyT)})
+		e.assumps = append(e.assumps, Assump{T: Eq(Term{inst.fname, inst.ret}, bodyT)})
 	} else {
 		ap := app(inst.ret, inst.fname, params...)
-		e.assumps = append(e.assumps, Assump{Forall(params, Eq(ap, bodyT), []Term{ap})})
+		e.assumps = append(e.assumps, Assump{T: Forall(params, Eq(ap, bodyT), []Term{ap})})
 	}
 	inst.defined = true
 	return inst
